@@ -121,7 +121,7 @@ def p : Name := [112]
 def L : Flav := [76]
 def dir (f : Flav) (v : Ver) : Dir := ⟨0, relDir f p v⟩
 def dirs : List DirEnt := [⟨dir L [49], p⟩, ⟨dir L [50], p⟩, ⟨dir generic [49], p⟩]
-def declareCmd (f : Flav) (v : Ver) : Cmd := .declare ⟨f, p, v, some (dir f v), none, false, none, false, false⟩
+def declareCmd (f : Flav) (v : Ver) : Cmd := .declare ⟨f, p, v, some (dir f v), none, false, none, false, false, []⟩
 
 /-- the history of D1: `declare p 1` (becomes current), `declare p 2`, `undeclare p 1`, `declare p 1`, four
 processes of one user -/
